@@ -50,6 +50,11 @@ if (!var) { \
   PRIMITIV_THROW_ERROR("Argument `" #var "` must not be null."); \
 }
 
+#define PRIMITIV_C_CHECK_NOT_NULL_ARRAY(var, n) \
+for (std::size_t i = 0; i < n; ++i) { \
+  PRIMITIV_C_CHECK_NOT_NULL(var[i]); \
+}
+
 struct primitivDevice;
 struct primitivNode;
 struct primitivGraph;
